@@ -1625,3 +1625,18 @@ Proof.
   apply andb_true_iff in H. destruct H as [H1 H2]. constructor; [|apply IH, H2].
   intros Hin. apply (existsb_eqb_in x l) in Hin. rewrite Hin in H1. discriminate H1.
 Qed.
+
+Lemma in_b n l : existsb (Nat.eqb n) l = true -> In n l.
+Proof. apply existsb_eqb_in. Qed.
+
+Lemma notin_b n l : existsb (Nat.eqb n) l = false -> ~ In n l.
+Proof. intros H Hin. apply (existsb_eqb_in n l) in Hin. rewrite Hin in H. discriminate H. Qed.
+
+Lemma incl_b a l : forallb (fun n => existsb (Nat.eqb n) l) a = true -> incl a l.
+Proof. intros H n Hn. rewrite forallb_forall in H. apply in_b. exact (H n Hn). Qed.
+
+Lemma find_node_in n f t : find_node n f = Some t -> In t (pre_f f) /\ rid t = n.
+Proof.
+  unfold find_node. intros H. apply find_some in H. destruct H as [H1 H2]. split; [exact H1|].
+  apply Nat.eqb_eq. exact H2.
+Qed.
